@@ -236,6 +236,20 @@ Theorem C09_minpathcover_returns_the_width :
 Proof. exact minpathcover_returns_the_width. Qed.
 Print Assumptions C09_minpathcover_returns_the_width.
 
+(* the solver-specification hypotheses of C09_minpathcover_end_to_end / C09_minpathcover_returns_the_width hold for a concrete honest
+   solver on the diamond 1 -> {2,3} -> 4 (EDGE mode; source 0, sink 5; lower bound 1): the k-cover model is feasible exactly for k >= 2,
+   the status list is what such a solver answers, and the search returns 2 *)
+Example C09_edge_solver_hypotheses_satisfiable :
+  let feasible := fun k => (2 <=? k)%nat in
+  let sts := map (fun k => mkraw (if feasible k then Optimal else Infeasible) false) (seq 1 4) in
+  (forall k, feasible k = true <-> exists a, sat a (encode_kpc (cover_inst xV xE 0%N 5%N k) (synth xV xE 0%N 5%N))) /\
+  (forall i, (i < S (length xE) - 1)%nat -> exists x, nth_error sts i = Some x /\
+             status_of x = if feasible (1 + i)%nat then Optimal else Infeasible) /\
+  (forall k, (k < 1)%nat -> feasible k = false) /\
+  so_res (mpc_solve true 1 (S (length xE)) sts) = Solved 2.
+Proof. exact AuditExamples17.edge_cover_solver_hypotheses. Qed.
+Print Assumptions C09_edge_solver_hypotheses_satisfiable.
+
 Theorem C09_kminpatherror_feasible_from_the_width_on :
   forall (V : list node) (E : list PathEnc.edge) (s t : node) (Pa Sa : list (node * list node)) (topo : list node)
          (feasible : nat -> bool) (lb : nat) (sts : list raw)
